@@ -36,7 +36,8 @@ MANIFEST_TEXT = ('Every dataset profile of n = 1..7 (quick) / 1..10 (thorough) s
                  'sum and list reductions, get_reverse_complement on a stream} and per-chromosome pipelines on genomes of 1..3 '
                  'chromosomes {pileup sum/data, mask data, two reductions sharing a node, histogram reduction, values under '
                  'intervals: row max and column mean} evaluated with bnp.compute: streamed result == in-memory result; '
-                 're-chunking yields chunks of exactly n\' except a last chunk of 1..n\'.')
+                 're-chunking yields chunks of exactly n\' except a last chunk of 1..n\'. Long entries: four sequences of 400 001 bases x all 8 '
+                 'chunkings (chunks of 0.4 to 1.6 million k-mers) x count_kmers k = 1, 2 against whole-array NumPy counts.')
 MANIFEST_NOTE = 'Trusted: NumPy; the in-memory evaluation of the same library function is the reference (differential).'
 TECHNIQUE = 'bounded exhaustive enumeration of all chunkings x computations, differential against in-memory evaluation'
 
@@ -205,6 +206,68 @@ def run_stream_case(res, profile, cuts, cname, reg):
         res.outcome('differs')
     else:
         res.outcome('equal:' + cname)
+
+
+# ---------------------------------------------------------------- long entries: chunks above / below a million k-mers
+# The datasets above are small; a computation that switches to block-wise evaluation for long inputs depends on the
+# chunking only when a chunk is long.  Four entries of ~400 000 bases: every chunking (8) x the k-mer counts; chunks of 1,
+# 2, 3 and 4 entries hold 0.4, 0.8, 1.2 and 1.6 million k-mers.  Oracle: in-memory result AND whole-array NumPy counts.
+BIG_LEN = 400001
+_BIG = {}
+
+
+def big_rows():
+    if 'rows' not in _BIG:
+        rows = []
+        for i, r in enumerate(dataset_rows((2, 2))):
+            pat = SEQS[(i + 3) % len(SEQS)] + 'ACGGT'[i:] + 'T' * i
+            rows.append(r[:4] + ((pat * (BIG_LEN // len(pat) + 2))[:BIG_LEN + i],))
+        _BIG['rows'] = rows
+    return _BIG['rows']
+
+
+def big_model(k):
+    idx = {c: i for i, c in enumerate('ACGT')}
+    total = np.zeros(4 ** k, dtype=np.int64)
+    for r in big_rows():
+        a = np.frombuffer(r[4].encode(), dtype=np.uint8)
+        code = np.zeros(256, dtype=np.int64)
+        for c, i in idx.items():
+            code[ord(c)] = i
+        a = code[a]
+        m = len(a) - k + 1
+        c = np.zeros(m, dtype=np.int64)
+        for j in range(k):
+            c += a[j:j + m] * 4 ** j
+        total += np.bincount(c, minlength=4 ** k)
+    return tuple(int(x) for x in total)
+
+
+def run_big_case(res, cuts, k):
+    import bionumpy as bnp
+    rows = big_rows()
+    case = {'part': 'stream-big', 'cuts': list(cuts), 'k': k}
+    feats = {'comp': 'count_kmers_%d' % k, 'entries': 'long (4 x 400 001 bases)', 'single_chunk': len(cuts) == 0,
+             'largest_chunk_above_10^6_kmers': max(len(c) for c in chunks_of(rows, cuts)) >= 3}
+    res.evaluations += 1
+    res.states += 1
+    res.planned += 1
+    res.traces += 1
+    res.transitions += 1
+    res.nontrivial += 1
+    want = big_model(k)
+    try:
+        got = val(bnp.sequence.count_kmers(mk_stream(rows, cuts).seq, k))
+    except observe.ObserverError:
+        raise
+    except Exception as e:
+        res.fail('streamed-raises', case, dict(feats, exc=exc_name(e)), expected='counts', observed=repr(e)[:300], tb=tb_string(e))
+        return
+    if got[1] != want:
+        res.fail('streamed-differs-from-in-memory', case, feats, expected=want, observed=got[1])
+        res.outcome('differs')
+    else:
+        res.outcome('equal:big:count_kmers_%d' % k)
 
 
 def run_rechunk_case(res, profile, cuts, n2):
@@ -376,13 +439,28 @@ def shards(tier, seed):
             for profile in compositions_upto(n, nc):
                 out.append({'part': 'pipeline', 'n_chrom': nc, 'profile': list(profile)})
     out.sort(key=lambda d: -sum(d['profile']))
-    return out
+    return [{'part': 'stream-big', 'profile': [2, 2], 'k': 1}, {'part': 'stream-big', 'profile': [2, 2], 'k': 2}] + out
 
 
 def run_shard(desc, deadline):
     res = Result()
     profile = tuple(desc['profile'])
     n = sum(profile)
+    if desc['part'] == 'stream-big':
+        for cuts in all_cuts(n):
+            if deadline.expired():
+                res.capped = True
+                return res
+            run_big_case(res, cuts, desc['k'])
+        # the whole table in memory (no stream) against the same whole-array counts
+        import bionumpy as bnp
+        got = val(bnp.sequence.count_kmers(mk(big_rows()).seq, desc['k']))
+        res.transitions += 1
+        if got[1] != big_model(desc['k']):
+            res.fail('streamed-differs-from-in-memory', {'part': 'stream-big', 'cuts': None, 'k': desc['k']},
+                     {'comp': 'count_kmers_%d' % desc['k'], 'entries': 'long (4 x 400 001 bases)', 'in_memory': True},
+                     expected=big_model(desc['k']), observed=got[1])
+        return res
     if desc['part'] == 'stream':
         reg, _ = comp_registry()
         for cuts in all_cuts(n):
@@ -411,9 +489,18 @@ def run_shard(desc, deadline):
 
 def replay_case(case):
     res = Result()
-    profile = tuple(case['profile'])
-    cuts = tuple(case['cuts'])
-    if case['part'] == 'stream':
+    profile = tuple(case.get('profile', (2, 2)))
+    cuts = tuple(case['cuts'] or ())
+    if case['part'] == 'stream-big':
+        if case['cuts'] is None:
+            import bionumpy as bnp
+            got = val(bnp.sequence.count_kmers(mk(big_rows()).seq, case['k']))
+            if got[1] != big_model(case['k']):
+                res.fail('streamed-differs-from-in-memory', case, {'comp': 'count_kmers_%d' % case['k'],
+                         'entries': 'long (4 x 400 001 bases)', 'in_memory': True}, expected=big_model(case['k']), observed=got[1])
+        else:
+            run_big_case(res, tuple(case['cuts']), case['k'])
+    elif case['part'] == 'stream':
         reg, _ = comp_registry()
         run_stream_case(res, profile, cuts, case['comp'], reg)
     elif case['part'] == 'chunk_entries':
